@@ -21,6 +21,9 @@ CHECKS = {
     "C02": C("c02", dict(checks=25, shards=4, timeout=900), dict(checks=400, shards=16, timeout=6000),
              "property-based testing (rapid): differential between the compact world and the in-memory world built from the same generated OSM source, over a canonical snapshot of every read query",
              "Trusted: neither world; any disagreement is reported. Locations are compared at E7 (the in-memory world keeps the float it was given). Result order is compared for searches only; references, relations and areas are compared as sets (their order is map iteration order in the in-memory world)."),
+    "C03": C("c03", dict(checks=500, shards=4, timeout=900), dict(checks=8000, shards=16, timeout=6000),
+             "property-based testing (rapid): generated worlds of every implementation, edit histories and query trees; oracle: independent three-valued evaluation of the query over the model's current tags, plus order and uniqueness of the result",
+             "Trusted: the evaluator in harness/c03 (Query.Matches is not used: Typed.Matches ignores its inner query). 'all' on a point that is or ever was untagged is Unknown (bare points are documented as not indexed). Tagged leaves use # keys, keyed leaves # and @ keys."),
     "C06": C("c06", dict(checks=5000, shards=2, timeout=300), dict(checks=50000, shards=16, timeout=3000),
              "property-based testing (rapid): generated indices, query trees and Next/Advance call scripts on three index back ends compared with a set-algebra denotation and a sorted-slice iterator model",
              "Trusted: the set denotation and position model in harness/c06. The empty intersection (which would denote the universe and indexes iterators[0]) is outside the domain; scripts stop at the first false result because behaviour after exhaustion differs between back ends and is unspecified."),
